@@ -152,6 +152,37 @@ fn main() {
             println!("result={}", names[code as usize]);
             println!("value={}", if val.is_empty() { "-".to_string() } else { tohex(&val[..1]) });
         }
+        // snapshot_roundtrip @level files...
+        "snapshot_roundtrip" => {
+            let lv = levels(&a[1..]);
+            let (before, after, ok) = v::vset_snapshot_roundtrip(opts(), &lv);
+            println!("recover_ok={}", ok);
+            println!("original={}", before.join("|"));
+            println!("recovered={}", after.join("|"));
+        }
+        // log_and_apply_fault created|reused : the manifest append of the edit fails; what does log_and_apply report?
+        "log_and_apply_fault" => {
+            let mut shown = false;
+            for k in 1..=4usize {
+                let fs = rdbv::faultfs::FaultFs::new();
+                let o = v::options_with(std::sync::Arc::new(fs.clone()), 4096);
+                let f2 = fs.clone();
+                let (ok, installed) = v::vset_log_and_apply_edit(o, a[1] == "created", 77, &move || f2.arm("manifest", k, true));
+                let failed = fs.failures() > 0;
+                println!("try{}=result:{} installed:{} append_failed:{}", k, if ok { "Ok" } else { "Err" }, installed, failed);
+                if failed && ok && !shown {
+                    shown = true;
+                    println!("result=Ok");
+                    println!("installed={}", installed);
+                    println!("append_failed=true");
+                }
+            }
+            if !shown {
+                println!("result=Err");
+                println!("installed=false");
+                println!("append_failed=true");
+            }
+        }
         other => {
             eprintln!("unknown command {}", other);
             std::process::exit(2);
